@@ -296,3 +296,80 @@ def req_region(facts):
             else:
                 out.append(ob("req.region", key, fn["pat"], "violated", "with hra_=%s the compacted range is (%s, %s), %s is not provably %s: compact() shrinks num_items_ from that end, so the live region loses an item that was not compacted and keeps a destroyed/duplicated one (weight no longer conserved, ranks biased)" % (str(hra).lower(), ret[0], ret[1], "low" if hra else "high", want), fn["qname"]))
     return out
+
+
+def req_merge_ranges(facts):
+    """req_compactor::merge: the two sorted runs handed to std::inplace_merge(first, middle, last) are exactly the old items and the
+    appended items, in both buffer layouts.  Pointer expressions are evaluated exactly (integer polynomials over items_, capacity_,
+    num_items_ and other's item count) with hra_ fixed to each value and begin()/end() inlined from their bodies:
+    {middle - first, last - middle} must be {num_items_, other.get_num_items()} and [first, last) must be the live region after the
+    merge."""
+    from poly import Poly
+    fns = functions_by(facts, ["req"])
+    req = {f["name"] + ("#const" if f.get("const") else ""): f for p, f in fns.items() if f.get("rect") == "datasketches::req_compactor"}
+    out = []
+    mg = [f for p, f in sorted(fns.items()) if f.get("rect") == "datasketches::req_compactor" and f["name"] == "merge"]
+    if not mg:
+        return [ob("req.merge-range", "req_compactor::merge:anchor", "", "unrecognised", "merge not found", "")]
+    fn = mg[0]
+    decls = local_decls(fn)
+    other = fn["params"][0]["d"]
+
+    def body_ret(name):
+        f = req.get(name) or req.get(name + "#const")
+        if not f:
+            return None
+        rs = [s for s in stmts_of(f["body"]) if s.get("k") == "Return"]
+        return rs[0]["e"] if len(rs) == 1 else None
+    for hra in (True, False):
+        def ev(e, depth=0):
+            e = strip_all(e)
+            k = e.get("k")
+            if depth > 12:
+                return None
+            if k == "Cond":
+                c = strip_all(e["c"])
+                if c.get("k") == "Member" and c.get("f") == "hra_":
+                    return ev(e["a"] if hra else e["e"], depth + 1)
+                return None
+            if k in ("Int",) or (k == "Cast" and "v" in e):
+                return Poly.const(e["v"])
+            if "v" in e and k not in ("Call", "Member", "Ref"):
+                return Poly.const(e["v"])
+            if k == "Member" and e.get("isfield") and strip_all(e["b"]).get("k") == "This":
+                return Poly.sym(e["f"])
+            if k == "Ref" and e.get("dk") == "local" and e.get("d") in decls and decls[e["d"]].get("init") is not None:
+                return ev(decls[e["d"]]["init"], depth + 1)
+            if k == "Bin" and e.get("op") in ("+", "-"):
+                a, b = ev(e["l"], depth + 1), ev(e["r"], depth + 1)
+                if a is None or b is None:
+                    return None
+                return a + b if e["op"] == "+" else a - b
+            if k == "Call" and e.get("cname") in ("begin", "end") and strip_all(e.get("obj") or {}).get("k") == "This":
+                r = body_ret(e["cname"])
+                return ev(r, depth + 1) if r is not None else None
+            if k == "Call" and e.get("cname") == "get_num_items" and strip_all(e.get("obj") or {}).get("d") == other:
+                return Poly.sym("other_n")
+            return None
+        calls = []
+        walk(fn["body"], lambda n: calls.append(n) if n.get("k") == "Call" and n.get("cname") == "inplace_merge" else None)
+        key = "req_compactor::merge:inplace_merge-runs(%s)" % ("hra" if hra else "lra")
+        if len(calls) != 1 or len(calls[0].get("args", [])) < 3:
+            out.append(ob("req.merge-range", key, fn["pat"], "unrecognised", "expected exactly one std::inplace_merge(first, middle, last, ..)", fn["qname"]))
+            continue
+        a = [ev(x) for x in calls[0]["args"][:3]]
+        if any(x is None for x in a):
+            out.append(ob("req.merge-range", key, calls[0]["loc"], "unrecognised", "range expression not evaluable: %s" % [txt(x) for x in calls[0]["args"][:3]], fn["qname"]))
+            continue
+        first, middle, last = a
+        n, m = Poly.sym("num_items_"), Poly.sym("other_n")
+        items, cap = Poly.sym("items_"), Poly.sym("capacity_")
+        want_first = items + cap - n - m if hra else items
+        want_last = items + cap if hra else items + n + m
+        runs = {repr(middle - first), repr(last - middle)}
+        ok = (first == want_first) and (last == want_last) and runs == {repr(n), repr(m)}
+        if ok:
+            out.append(ob("req.merge-range", key, calls[0]["loc"], "discharged", "first=%r middle=%r last=%r: runs of num_items_ and other's count, covering the merged live region" % (first, middle, last), fn["qname"]))
+        else:
+            out.append(ob("req.merge-range", key, calls[0]["loc"], "violated", "with hra_=%s std::inplace_merge gets first=%r middle=%r last=%r: runs of %r and %r items instead of num_items_ and other.get_num_items() (num_items_ is only advanced afterwards) - the appended run is not merged in, the level is left 'old sorted, then new sorted' while flagged sorted" % (str(hra).lower(), first, middle, last, middle - first, last - middle), fn["qname"]))
+    return out
